@@ -22,7 +22,7 @@ ASSUMPTIONS = [
     "masses compared at 1e-6 relative; 'determined' decided with exact rationals",
     "the statement quantifies over positive masses and percentages: 0 % components are not enumerated",
 ]
-BOUNDS = {"quick": "1..4 components, absolute in {60,150}, percent in {10,25,50,75,90,100,110,-5}, external mass none/consistent/inconsistent", "thorough": "1..5 components, more values"}
+BOUNDS = {"quick": "1..5 components, absolute in {60,150,1e3,0.5}, percent in {10,25,50,75,90,100,110,-5,33.3,12.5,2.5} + signed exponents, external mass none/consistent/inconsistent", "thorough": "as quick + absolute 12345.678, percent 0.1 / 99.9"}
 CASE_TIMEOUT = {"quick": 300, "thorough": 1800}
 TOK = ["C", "CC", "CCC", "CCCC", "CCCCC"]
 
@@ -31,15 +31,17 @@ def configs(tier):
     absv = ["60", "150"]
     pct = ["10", "25", "50", "75", "90", "100", "110", "-5"]
     sci = [("a", "1.5e+2"), ("p", "2.5e+1"), ("p", "5e-1"), ("a", "6e-1"), ("p", "1e-3")]  # signed exponents
+    absv += ["1e3", "0.5"]
+    pct += ["33.3", "12.5", "2.5"]
     if tier == "thorough":
-        absv += ["1e3", "0.5"]
-        pct += ["33.3", "12.5", "2.5"]
-    nmax = 5 if tier == "thorough" else 4
+        absv += ["12345.678"]
+        pct += ["0.1", "99.9"]
+    nmax = 5
     for n in range(1, nmax + 1):
         opts = [("a", v) for v in absv] + [("p", v) for v in pct]
         if n >= 4:
             opts = [("a", "60"), ("a", "150"), ("p", "10"), ("p", "25"), ("p", "50"), ("p", "5")] + ([("p", "110")] if n == 4 else [])
-        last = opts + [("u", None)]
+        last = opts + [("u", None)]  # the notation can only leave the LAST component without a specifier
         for combo in itertools.product(*([opts] * (n - 1) + [last])):
             yield list(combo)
         if n <= 3:
